@@ -35,7 +35,9 @@ ASSUMPTIONS = [
     'entries are plain values (int / str / dict / None): the test summary must list each of them once '
     'under TestOutcome.NOT_A_TEST (documented meaning of that outcome) and keep counting the others; '
     'the summary by labels is not given these entries',
-    "label values are strings; the reserved labels '_test_name' / '_result' are not used as test labels",
+    "label values are strings; in one result out of twelve the reserved labels '_test_name' / '_result' "
+    "(documented as replaced with a warning) are carried by a test, with string or 0/1 values; they never "
+    "belong to by_labels",
     'the verdict of a summary that observed nothing (no task / no result and nothing missing / no '
     'label group) is not asserted: the three summary kinds disagree on it and nothing documents it',
     'summaries are read with non-inserting accesses (bool, dict(classify), oracles, '
@@ -66,8 +68,16 @@ JUNK_VALUES = {'int': 42, 'str': 'text', 'dict': {'k': 1}, 'none': None, 'zero':
 def _labels(draw, rich):
     # rich: most labels present (so that multi-label groups exist); otherwise sparse
     prob = [True, True, True, False] if rich else [True, False]
-    return {lab: draw(st.sampled_from(VALUE_POOL)) for lab in LABEL_POOL[:3]
-            if draw(st.sampled_from(prob))}
+    labels = {lab: draw(st.sampled_from(VALUE_POOL)) for lab in LABEL_POOL[:3]
+              if draw(st.sampled_from(prob))}
+    if draw(st.integers(0, 11)) == 0:
+        # the two labels the by-labels summary reserves for itself: documented as replaced
+        # (with a warning) when a test carries them, so they must not influence any count
+        if draw(st.booleans()):
+            labels['_result'] = draw(st.sampled_from(['reviewed', 0, 1, 'SUCCESS']))
+        else:
+            labels['_test_name'] = draw(st.sampled_from(['x', 'm0']))
+    return labels
 
 
 @st.composite
